@@ -46,6 +46,47 @@ CHECKS = {
         technique="Lean 4 proof (generic invariant preservation over the evaluator, arithmetic laws) + end-to-end "
                   "differential correspondence with shrinking",
         ref="DESIGN.md §6 C01"),
+    "C03": dict(
+        text="Lean 4 theorems (CbProps/C03.lean) on CbRef, for all expressions/programs/states: a false left operand of && "
+             "(true of ||) yields the result and state of the left operand alone, whatever the right operand is; ?: evaluates "
+             "exactly the selected branch; strict binary operators and argument lists evaluate left to right, once each; "
+             "and_error_origin: a && b can only fail inside a, or inside b after a produced non-zero (guards protect); "
+             "division by a non-zero value is never a division error. Tie: programs whose operands are calls that print "
+             "their id (the printed order is the evaluation order): every binary operator x truth values x 9 evaluation "
+             "contexts, ternary, skipped failing operands, nestings, argument lists, index expressions, guard idioms; plus "
+             "random programs with effectful leaves; model vs interpreter.",
+        note="Differential tie on this run's programs. println argument contexts are kept free of failing effectful calls "
+             "while finding println_reeval is open; multi-dimensional index expressions are kept pure (md_* findings).",
+        technique="Lean 4 proof (unfolding lemmas on the reference evaluator, for all operands) + exhaustive effect-order "
+                  "table run end-to-end",
+        ref="DESIGN.md §6 C03"),
+    "C04": dict(
+        text="Lean 4 theorems (CbProps/C04.lean): RangeInv (every integer cell of globals, locals, statics, array elements "
+             "and struct members lies in its declared type's range) is preserved by every statement, loop and (recursive) "
+             "call of every CbRef program at every fuel (instance of the generic theorem allPres); reads yield in-range "
+             "values; out-of-range stores are range errors, negative-to-unsigned clamps to 0, in-range values incl. both "
+             "boundaries round-trip. Obligation rangeTable_is_spec (decide) ties the model's range table to the table the "
+             "translator regenerates from TypeManager::check_type_range on every run. Correspondence: the full matrix 9 types "
+             "x 13 store paths x boundary values x {literal, variable} plus random narrow-type programs, model vs interpreter.",
+        note="Trusted: translator tools/translate/ranges.py (regex over one switch), differential harness. The many store "
+             "paths of the C++ are covered by the matrix only, not proved; 7 listed findings (unchecked paths) are "
+             "attributed per matrix cell.",
+        technique="Lean 4 proof (whole-evaluator invariant by induction on fuel over 11 mutual functions) + translator-tied "
+                  "table obligation (decide) + exhaustive store-path matrix",
+        ref="DESIGN.md §6 C04"),
+    "C08": dict(
+        text="Lean 4 theorems (CbProps/C08.lean) on CbRef: running a callee in a fresh frame gives a result, globals, "
+             "statics and output that do not depend on the caller's frame; every call returns with the caller's frame "
+             "intact; the fresh frame holds exactly the parameters, bound positionally; too many / missing arguments are "
+             "arity errors, declared defaults fill omitted trailing parameters; an in-range return value reaches the caller "
+             "unchanged; an existing static is not re-initialised. Tie: targeted call graphs (recursion depth 1..50, mutual "
+             "recursion, name reuse, all arity cells for 0..3 parameters, boundary return values, interleaved statics) and "
+             "random call graphs with reused local names, model vs interpreter.",
+        note="Frames are private by construction in the model (withFrame); that the implementation behaves so is only "
+             "tested. Listed findings: arguments evaluated in the callee's scope, dynamic name lookup.",
+        technique="Lean 4 proof (frame discipline lemmas on the reference semantics) + end-to-end differential call-graph "
+                  "suites",
+        ref="DESIGN.md §6 C08"),
 }
 
 PENDING = {}
